@@ -1138,6 +1138,38 @@ func checkInitChain(c *core.Ctx, g *model.GenPkg, rawVar, base string, fdesc pro
 			})
 		}
 	}
+	// the file registers itself when the package is initialised: some `func init()` calls <base>_init()
+	registered := false
+	var bodyGuard bool
+	for _, f := range g.Files {
+		for _, d := range f.Decls {
+			fd, ok := d.(*ast.FuncDecl)
+			if !ok || fd.Recv != nil || fd.Name.Name != "init" || fd.Body == nil {
+				continue
+			}
+			for _, st := range fd.Body.List {
+				if es, ok := st.(*ast.ExprStmt); ok {
+					if call, ok := es.X.(*ast.CallExpr); ok && len(call.Args) == 0 {
+						if id, ok := call.Fun.(*ast.Ident); ok && id.Name == base+"_init" {
+							registered = true
+						}
+					}
+				}
+			}
+		}
+	}
+	// and <base>_init is idempotent: it returns at once when File_<x> is already set
+	if len(initFn.Body.List) > 0 {
+		if is, ok := initFn.Body.List[0].(*ast.IfStmt); ok && is.Init == nil && is.Else == nil && len(is.Body.List) == 1 {
+			if _, isRet := is.Body.List[0].(*ast.ReturnStmt); isRet {
+				if be, ok := ast.Unparen(is.Cond).(*ast.BinaryExpr); ok && be.Op == token.NEQ && strings.HasPrefix(types.ExprString(be.X), "File_") && types.ExprString(be.Y) == "nil" {
+					bodyGuard = true
+				}
+			}
+		}
+	}
+	c.Check(registered && bodyGuard, "COH.initchain", g.Name+" "+base+"_init registration", "a package init function calls "+base+"_init(), which returns at once when the file is already initialised",
+		fmt.Sprintf("package initialisation does not register the file (init calls %s_init: %v; idempotence guard `if File_… != nil { return }`: %v): the descriptor would not be in the global registry until something else touches it", base, registered, bodyGuard), pos(c, g, initFn.Pos()), src)
 	imps := fdesc.Imports()
 	for i := 0; i < imps.Len(); i++ {
 		dep := imps.Get(i).Path()
